@@ -94,7 +94,14 @@ class InterruptableThread(threading.Thread):
 
         """
         self.exc_info = sys.exc_info()
-        self.raise_exception(SystemExit)
+        try:
+            self.raise_exception(SystemExit)
+        except (AssertionError, ValueError):
+            # The thread may end by itself at any moment, also between the
+            # caller's `is_alive()` and this call: then there is nothing left
+            # to terminate, which is not an error.
+            if self.is_alive():
+                raise
 
 
 def timeout(duration, func, *args, **kwargs):
